@@ -54,9 +54,19 @@ class IrEngineBase(Engine):
     long_histories = False
     judge_queries = False
 
+    corpus: Any = None
+    full_ctx: Any = None
+
     def prepare(self, tier: str, seed: int) -> None:
         # thorough: histories of up to 240 calls (quick: up to 80)
         self.long_histories = tier == "thorough"
+        if IrEngineBase.corpus is None:
+            import os
+
+            from simverif.engines import streamsim
+
+            IrEngineBase.corpus = streamsim.build_corpus(min(16, os.cpu_count() or 1))
+            _, IrEngineBase.full_ctx = streamsim._contexts()
 
     # -- one run ------------------------------------------------------------
     def run(self, ch: Chooser, trace: bool) -> RunResult:
@@ -78,7 +88,26 @@ class IrEngineBase(Engine):
         u = Universe()
         ok_calls = 0
         kinds: list[int] = []
-        C.build_initial(u, cfg)
+        start = "generated"
+        if IrEngineBase.corpus is not None and cfg.flag(1, 6):
+            # "any starting IR": a module of the filecheck corpus (real dialect operations,
+            # CFG and graph regions, properties) instead of generated test-dialect trees
+            from xdsl.parser import Parser
+
+            corpus = IrEngineBase.corpus
+            ci = cfg.choice(len(corpus.w2))
+            try:
+                module = Parser(IrEngineBase.full_ctx, corpus.w2[ci]).parse_module()
+                n_mod = sum(1 for _ in module.walk())
+            except Exception:  # noqa: BLE001
+                module, n_mod = None, 0
+            if module is not None and n_mod <= 120:
+                u.register(module)
+                max_ops = max(max_ops, n_mod + 25)
+                start = corpus.names[ci]
+                st["initial.corpus_module"] += 1
+        if start == "generated":
+            C.build_initial(u, cfg)
         try:
             check_inv(u)
             if self.judge_queries:
@@ -88,7 +117,7 @@ class IrEngineBase(Engine):
             res.trace = tr
             return res
         if tr is not None:
-            tr.append(f"initial IR: {len(u.ops)} ops, {len(u.blocks)} blocks, {len(u.regions)} regions, {len(u.roots())} roots")
+            tr.append(f"initial IR ({start}): {len(u.ops)} ops, {len(u.blocks)} blocks, {len(u.regions)} regions, {len(u.roots())} roots")
         st["initial_ops." + _bucket(len(u.ops))] += 1
         self.begin_run(u)
         for step in h.iter_steps(n_steps):
@@ -268,6 +297,7 @@ class IrEngineBase(Engine):
             "run_endings": {k[6:]: v for k, v in sorted(stats.items()) if k.startswith("ended.")},
             "inconclusive": {k[13:]: v for k, v in sorted(stats.items()) if k.startswith("inconclusive.")},
             "universe_size_at_end": {k[20:]: v for k, v in sorted(stats.items()) if k.startswith("universe_ops_at_end.")},
+            "histories_starting_from_a_corpus_module": stats.get("initial.corpus_module", 0),
             "reach_probes": {k[6:]: v for k, v in sorted(stats.items()) if k.startswith("reach.")},
             "schedule_dimension": "none: the API is synchronous and single-caller; the history order is the only interleaving",
         }
@@ -363,22 +393,14 @@ class C02Engine(IrEngineBase):
     }
     group_bias = {"clone": 5, "dictedit": 2}
 
-    corpus: Any = None
-    full_ctx: Any = None
     passes: Any = None
     matched: Any = None
 
     def prepare(self, tier: str, seed: int) -> None:
         super().prepare(tier, seed)
-        if C02Engine.corpus is None:
-            import os
-
+        if C02Engine.passes is None:
             from xdsl.transforms import get_all_passes
 
-            from simverif.engines import streamsim
-
-            C02Engine.corpus = streamsim.build_corpus(min(16, os.cpu_count() or 1))
-            _, C02Engine.full_ctx = streamsim._contexts()
             names = sorted(n for n in get_all_passes() if n not in ("mlir-opt",))
             C02Engine.passes = [(n, get_all_passes()[n]) for n in names]
             # (pass index, corpus chunk) pairs where the chunk comes from the pass's own filecheck file
